@@ -39,7 +39,7 @@ func genBoundaryCase(t *rapid.T) BoundaryCase {
 		c.R.ReadBuf = rapid.SampledFrom([]int{0, 0, 1, 64, 255, 256, 257, 1024}).Draw(t, "rbuf")
 		c.R.HijackR = rapid.SampledFrom([]int{16, 64, 128, 255, 256, 257, 512, 4096, 8192}).Draw(t, "hijack_r")
 	} else {
-		c.R.ReadBuf = rapid.SampledFrom([]int{0, 1, 64, 125, 126, 300, 4096}).Draw(t, "rbuf")
+		c.R.ReadBuf = rapid.SampledFrom([]int{0, 1, 64, 125, 126, 300, 4096, 4097, 8192, 65536}).Draw(t, "rbuf")
 	}
 	maxLen := rapid.SampledFrom([]int{20, 100, 400, 1500}).Draw(t, "maxlen")
 	c.S = genStream(t, SGenOpts{MaxMsgs: 3, Compression: c.R.Compress, R: c.R.ReadBuf, MaxLen: maxLen})
